@@ -57,9 +57,16 @@ def parseRec (p : Parsed) (rec : String) : Parsed :=
   | "X" :: lf :: sf :: _ => { p with loaderFail := lf = "1", scanFail := sf = "1" }
   | ["K", l] => { p with order := natList l }
   | ["B", l] => { p with boot := natList l }
-  | ["R", idx, name, ty, impl, custom, primary, lazy, qual, meths, ocls, okey] =>
+  | "R" :: idx :: name :: ty :: impl :: custom :: primary :: lazy :: qual :: meths :: ocls :: okey :: more =>
+    let inj : Option (Nat × Nat) :=
+      match more with
+      | [tok] => (match tok.splitOn "/" with
+          | [a, b] => if tok = "~" then none else some (natOf a, natOf b)
+          | _ => none)
+      | _ => none
     let pr : Prov := { id := natOf idx, name := hexOr name, ty := natOf ty, impl := natOf impl, custom := custom = "1",
-                       primary := primary = "1", qual := if qual = "~" then none else some (hexOr qual), meths := parseMeths meths }
+                       primary := primary = "1", qual := if qual = "~" then none else some (hexOr qual), meths := parseMeths meths,
+                       inj := inj }
     { p with rows := p.rows ++ [{ prov := pr, lazy := lazy = "1",
                                   ocls := if ocls = "p" then .prio else if ocls = "o" then .ord else .plain, okey := intOf okey }] }
   | ["N", row, _ty, _cust, _q, _r, _ord, early, after, flt, cfg, wired] =>
